@@ -151,7 +151,11 @@ type knownFinding struct {
 
 func loadKnown(prop string) []knownFinding {
 	var out []knownFinding
-	b, err := os.ReadFile("/verif/known_findings.txt")
+	file := "/verif/known_findings.txt"
+	if v := os.Getenv("VERIF_KNOWN_FILE"); v != "" {
+		file = v // investigation only: the registered commands never set it
+	}
+	b, err := os.ReadFile(file)
 	if err != nil {
 		return nil
 	}
